@@ -3,6 +3,7 @@ package main
 import (
 	"encoding/hex"
 	"fmt"
+	"math"
 	"strings"
 )
 
@@ -65,3 +66,6 @@ func boundaryInts() []int64 {
 	}
 	return out
 }
+
+// f32AsF64bits widens a float32 bit pattern to the float64 that holds the same number.
+func f32AsF64bits(b uint32) uint64 { return math.Float64bits(float64(math.Float32frombits(b))) }
